@@ -46,8 +46,8 @@ theorem deliver_count (t : Topo) (w : WId) (inbox : WId → RId → List Nat) (d
 
 /-! ### one critical section of the writer machine, seen from reader `r` -/
 
-theorem receive_pend (m : W) (a : Ans) (r : RId) (g : Nat) : (receive m a r g).1.pend = m.pend ∧
-    (receive m a r g).1.closed = m.closed ∧ (receive m a r g).2.deliv = [] := by
+theorem receive_pend (m : W) (a : Ans) (r : RId) (g w : Nat) : (receive m a r g w).1.pend = m.pend ∧
+    (receive m a r g w).1.closed = m.closed ∧ (receive m a r g w).2.deliv = [] := by
   simp only [receive, receiveWith]
   repeat (first | exact ⟨rfl, rfl, rfl⟩ | split)
 
@@ -82,7 +82,7 @@ theorem linkOf_some (m : W) (r : RId) (hr : r ∈ m.readers) (hl : m.readers.len
 
 /-- Any critical section other than an answer of `r` itself: if `r` is open afterwards it was open
 before, and the writer awaits from it as many more answers as requests the step handed to it. -/
-theorem wstep_owed (m : W) (st : Writer.Step) (r : RId) (hf : ∀ a, st ≠ .answer r a)
+theorem wstep_owed (m : W) (st : Writer.Step) (r : RId) (hf : ∀ a, st ≠ .answer r a ∧ st ≠ .pop r a)
     (hnd : (∃ v, st = .write v) → m.readers.Nodup) :
     (Writer.step m st).1.closed r = false →
       m.closed r = false ∧
@@ -103,7 +103,7 @@ theorem wstep_owed (m : W) (st : Writer.Step) (r : RId) (hf : ∀ a, st ≠ .ans
           split
           · intro h
             refine ⟨h, ?_⟩
-            show (if r ∈ accepting m.closed m.readers then m.pend r ++ (linkOf m r).toList else m.pend r).length =
+            show (if r ∈ accepting m.closed m.readers then m.pend r ++ (linkOf m r).toList.map (·, m.written) else m.pend r).length =
               (m.pend r).length + (((accepting m.closed m.readers).map fun x => (x, v)).filter (fun d => d.1 = r)).length
             rw [filter_acc m.closed m.readers r v hn]
             split
@@ -121,16 +121,31 @@ theorem wstep_owed (m : W) (st : Writer.Step) (r : RId) (hf : ∀ a, st ≠ .ans
               | cons _ _ => rw [hl] at hacc; simp at hacc
             simp [this]
   | answer x a =>
-    have hx : x ≠ r := fun h => hf a (by rw [h])
+    have hx : x ≠ r := fun h => (hf a).1 (by rw [h])
     simp only [Writer.step, stepWith]
     split
     · exact fun h => ⟨h, by simp⟩
     · rename_i g rest _
-      obtain ⟨h1, h2, h3⟩ := receive_pend { m with pend := fun y => if y = x then rest else m.pend y } a x g
-      show (receive { m with pend := fun y => if y = x then rest else m.pend y } a x g).1.closed r = false → _
+      obtain ⟨h1, h2, h3⟩ := receive_pend { m with pend := fun y => if y = x then rest else m.pend y } a x g.1 g.2
+      show (receive { m with pend := fun y => if y = x then rest else m.pend y } a x g.1 g.2).1.closed r = false → _
       rw [h1, h2, h3]
       intro h
       exact ⟨h, by simp [Ne.symm hx]⟩
+  | pop x a =>
+    have hx : x ≠ r := fun h => (hf a).2 (by rw [h])
+    simp only [Writer.step, stepWith]
+    split
+    · exact fun h => ⟨h, by simp⟩
+    · exact fun h => ⟨h, by simp [Ne.symm hx]⟩
+  | deliver x k =>
+    simp only [Writer.step, stepWith]
+    split
+    · exact fun h => ⟨h, by simp⟩
+    · rename_i e _
+      obtain ⟨h1, h2, h3⟩ := receive_pend { m with flight := fun y => if y = x then (m.flight x).eraseIdx k else m.flight y } e.1 x e.2.1 e.2.2
+      show (receive { m with flight := fun y => if y = x then (m.flight x).eraseIdx k else m.flight y } e.1 x e.2.1 e.2.2).1.closed r = false → _
+      rw [h1, h2, h3]
+      exact fun h => ⟨h, by simp⟩
   | closeR x =>
     simp only [Writer.step, stepWith]
     split
@@ -143,8 +158,8 @@ theorem wstep_owed (m : W) (st : Writer.Step) (r : RId) (hf : ∀ a, st ≠ .ans
     split
     · exact fun h => ⟨h, by simp⟩
     · rename_i g rest _
-      obtain ⟨h1, h2, h3⟩ := receive_pend { m with drops := fun y => if y = x then rest else m.drops y } Ans.dropped x g
-      show (receive { m with drops := fun y => if y = x then rest else m.drops y } Ans.dropped x g).1.closed r = false → _
+      obtain ⟨h1, h2, h3⟩ := receive_pend { m with drops := fun y => if y = x then rest else m.drops y } Ans.dropped x g.1 g.2
+      show (receive { m with drops := fun y => if y = x then rest else m.drops y } Ans.dropped x g.1 g.2).1.closed r = false → _
       simp only
       rw [h1, h2, h3]
       exact fun h => ⟨h, by simp⟩
@@ -158,8 +173,8 @@ theorem answer_owed (m : W) (r : RId) (a : Ans) (hp : 0 < (m.pend r).length) :
   | nil => rw [hpr] at hp; simp at hp
   | cons g rest =>
     simp only [Writer.step, stepWith, hpr]
-    obtain ⟨h1, h2, h3⟩ := receive_pend { m with pend := fun y => if y = r then rest else m.pend y } a r g
-    show ((receive { m with pend := fun y => if y = r then rest else m.pend y } a r g).1.pend r).length = _ ∧ _
+    obtain ⟨h1, h2, h3⟩ := receive_pend { m with pend := fun y => if y = r then rest else m.pend y } a r g.1 g.2
+    show ((receive { m with pend := fun y => if y = r then rest else m.pend y } a r g.1 g.2).1.pend r).length = _ ∧ _
     rw [h1, h2, h3]
     simp
 
@@ -168,7 +183,7 @@ theorem answer_closed (m : W) (r : RId) (a : Ans) : (Writer.step m (.answer r a)
   split
   · rfl
   · rename_i g rest _
-    exact (receive_pend { m with pend := fun y => if y = r then rest else m.pend y } a r g).2.1
+    exact (receive_pend { m with pend := fun y => if y = r then rest else m.pend y } a r g.1 g.2).2.1
 
 /-! ### system level -/
 
@@ -181,7 +196,7 @@ theorem applyPrim_inbox_other (rule : Pump.Rule) (t : Topo) (s : Sys) (w : WId) 
 
 theorem prim_owed (t : Topo) (s : Sys) (w : WId) (c : CStep) (wi : WId) (r : RId) (n : Nat) (wo : WId)
     (hl : t.listener wi r = .node wo)
-    (hf : ¬ (w = wi ∧ ∃ a, c = .w (.answer r a)))
+    (hf : ¬ (w = wi ∧ ∃ a, c = .w (.answer r a) ∨ c = .w (.pop r a)))
     (hnd : w = wi → (∃ v, c = .w (.write v)) → (s.comp wi).w.readers.Nodup)
     (h : OwedEq s wi r n) : OwedEq (applyPrim .discard t s w c).1 wi r n := by
   unfold OwedEq at h ⊢
@@ -190,7 +205,8 @@ theorem prim_owed (t : Topo) (s : Sys) (w : WId) (c : CStep) (wi : WId) (r : RId
     rw [applyPrim_comp]; simp only [if_true]
     cases c with
     | w st =>
-      have hst : ∀ a, st ≠ .answer r a := fun a he => hf ⟨rfl, a, by rw [he]⟩
+      have hst : ∀ a, st ≠ .answer r a ∧ st ≠ .pop r a :=
+        fun a => ⟨fun he => hf ⟨rfl, a, Or.inl (by rw [he])⟩, fun he => hf ⟨rfl, a, Or.inr (by rw [he])⟩⟩
       have hn : (∃ v, st = .write v) → (s.comp w).w.readers.Nodup := fun ⟨v, hv⟩ => hnd rfl ⟨v, by rw [hv]⟩
       have key := wstep_owed (s.comp w).w st r hst hn
       simp only [applyC, applyPrim, setComp]
@@ -258,10 +274,12 @@ theorem flush_other_owed (t : Topo) (w' : WId) (r' : RId) (wi : WId) (r : RId) (
       simp only [flushReads]
       apply ih
       apply prim_owed t s w' _ wi r n wo hl _ _ h
-      · rintro ⟨hw, a', ha⟩
-        injection ha with ha
-        injection ha with h1 _
-        exact hne ⟨hw, h1⟩
+      · rintro ⟨hw, a', ha | ha⟩
+        · injection ha with ha
+          injection ha with h1 _
+          exact hne ⟨hw, h1⟩
+        · injection ha with ha
+          cases ha
       · rintro _ ⟨v', hv⟩; cases hv
 
 theorem flush_closed (t : Topo) (w : WId) (r : RId) (s : Sys) (l : List (Nat × Option Ans)) :
@@ -317,6 +335,7 @@ def Upstream (s : Sys) (wi : WId) (r : RId) : Prop := OwedEq s wi r (s.reads wi 
 /-- Nobody but the node answers on the node's in-reader. -/
 def stepNoForeign (wi : WId) (r : RId) : Teardown.Step → Prop
   | .prim w (.w (.answer r' _)) => ¬ (w = wi ∧ r' = r)
+  | .prim w (.w (.pop r' _)) => ¬ (w = wi ∧ r' = r)
   | _ => True
 
 theorem backed_nodup {s : Sys} (hb : AllBacked s) (w : WId) : (s.comp w).w.readers.Nodup := by
@@ -340,9 +359,9 @@ theorem closes_owed (t : Topo) (wi : WId) (r : RId) (wo : WId) (n : Nat) (hl : t
     apply ih
     cases c with
     | reader w x =>
-      exact prim_owed t s w _ wi r n wo hl (by rintro ⟨_, a, ha⟩; cases ha) (by rintro _ ⟨v, hv⟩; cases hv) h
+      exact prim_owed t s w _ wi r n wo hl (by rintro ⟨_, a, ha | ha⟩ <;> cases ha) (by rintro _ ⟨v, hv⟩; cases hv) h
     | writer w =>
-      exact prim_owed t s w _ wi r n wo hl (by rintro ⟨_, a, ha⟩; cases ha) (by rintro _ ⟨v, hv⟩; cases hv) h
+      exact prim_owed t s w _ wi r n wo hl (by rintro ⟨_, a, ha | ha⟩ <;> cases ha) (by rintro _ ⟨v, hv⟩; cases hv) h
 
 theorem setReads_owed_same (s : Sys) (wi : WId) (r : RId) (l : List (Nat × Option Ans))
     (h : OwedEq s wi r l.length) : Upstream (setReads s wi r l) wi r := by
@@ -498,19 +517,23 @@ theorem upstream_step (t : Topo) (wi : WId) (r : RId) (wo : WId) (hl : t.listene
       have hsink : t.listener w r' = .sink k := hq k (w, r') (by rw [hqk]; simp)
       apply prim_owed t { s with queue := fun x => if x = k then rest else s.queue x } w _ wi r _ wo hl _
         (by rintro _ ⟨v, hv⟩; cases hv) h
-      rintro ⟨hw, a', ha⟩
-      injection ha with ha
-      injection ha with h1 _
-      subst hw; subst h1
-      rw [hl] at hsink; cases hsink
+      rintro ⟨hw, a', ha | ha⟩
+      · injection ha with ha
+        injection ha with h1 _
+        subst hw; subst h1
+        rw [hl] at hsink; cases hsink
+      · injection ha with ha
+        cases ha
   | prim w c =>
     simp only [Teardown.step]
     unfold Upstream
     rw [applyPrim_reads]
     apply prim_owed t s w c wi r _ wo hl _ (fun _ _ => hnd) h
-    rintro ⟨hw, a, ha⟩
-    subst ha
-    exact hf ⟨hw, rfl⟩
+    rintro ⟨hw, a, ha | ha⟩
+    · subst ha
+      exact hf ⟨hw, rfl⟩
+    · subst ha
+      exact hf ⟨hw, rfl⟩
   | fwd w' r' =>
     simp only [Teardown.step]
     cases hl' : t.listener w' r' with
@@ -537,7 +560,7 @@ theorem upstream_step (t : Topo) (wi : WId) (r : RId) (wo : WId) (hl : t.listene
           rw [flushReads_reads, applyPrim_reads]
           apply flush_other_owed t w' r' wi r wo _ _ _ hl hsame
           refine prim_owed t { s with inbox := fun x y => if x = w' ∧ y = r' then rest else s.inbox x y } wo' (.w (.write v))
-            wi r _ wo hl (by rintro ⟨_, a, ha⟩; cases ha) (fun _ _ => hnd) ?_
+            wi r _ wo hl (by rintro ⟨_, a, ha | ha⟩ <;> cases ha) (fun _ _ => hnd) ?_
           unfold Upstream at h
           unfold OwedEq at h ⊢
           have hne : ¬ (wi = w' ∧ r = r') := fun ⟨a, b⟩ => hsame ⟨a.symm, b.symm⟩
@@ -561,7 +584,7 @@ theorem upstream_step (t : Topo) (wi : WId) (r : RId) (wo : WId) (hl : t.listene
       | got a =>
         simp only
         have h1 : OwedEq (applyPrim .discard t s wo' .recv).1 wi r (s.reads wi r).length :=
-          prim_owed t s wo' .recv wi r _ wo hl (by rintro ⟨_, a', ha⟩; cases ha) (by rintro _ ⟨v, hv⟩; cases hv) h
+          prim_owed t s wo' .recv wi r _ wo hl (by rintro ⟨_, a', ha | ha⟩ <;> cases ha) (by rintro _ ⟨v, hv⟩; cases hv) h
         by_cases hsame : wi' = wi ∧ r' = r
         · obtain ⟨rfl, rfl⟩ := hsame
           apply setReads_owed_same
@@ -643,7 +666,14 @@ theorem wstep_closed_mono (m : W) (st : Writer.Step) (r : RId) (h : m.closed r =
     split
     · exact h
     · rename_i g rest _
-      rw [(receive_pend { m with pend := fun y => if y = x then rest else m.pend y } a x g).2.1]; exact h
+      rw [(receive_pend { m with pend := fun y => if y = x then rest else m.pend y } a x g.1 g.2).2.1]; exact h
+  | pop x a => simp only [Writer.step, stepWith]; repeat (first | exact h | split)
+  | deliver x k =>
+    simp only [Writer.step, stepWith]
+    split
+    · exact h
+    · rename_i e _
+      rw [(receive_pend { m with flight := fun y => if y = x then (m.flight x).eraseIdx k else m.flight y } e.1 x e.2.1 e.2.2).2.1]; exact h
   | closeR x =>
     simp only [Writer.step, stepWith]
     split
@@ -655,7 +685,7 @@ theorem wstep_closed_mono (m : W) (st : Writer.Step) (r : RId) (h : m.closed r =
     · exact h
     · rename_i g rest _
       simp only
-      rw [(receive_pend { m with drops := fun y => if y = x then rest else m.drops y } Ans.dropped x g).2.1]; exact h
+      rw [(receive_pend { m with drops := fun y => if y = x then rest else m.drops y } Ans.dropped x g.1 g.2).2.1]; exact h
   | closeW => simp only [Writer.step, stepWith]; repeat (first | exact h | split)
 
 /-- a closed reader is handed nothing -/
@@ -695,7 +725,18 @@ theorem wstep_closed_no_deliv (m : W) (st : Writer.Step) (r : RId) (h : m.closed
       split
       · rfl
       · rename_i g rest _
-        exact (receive_pend { m with pend := fun y => if y = x then rest else m.pend y } a x g).2.2
+        exact (receive_pend { m with pend := fun y => if y = x then rest else m.pend y } a x g.1 g.2).2.2
+    rw [hd]; rfl
+  | pop x a =>
+    have hd : (Writer.step m (.pop x a)).2.deliv = [] := by simp only [Writer.step, stepWith]; repeat (first | rfl | split)
+    rw [hd]; rfl
+  | deliver x k =>
+    have hd : (Writer.step m (.deliver x k)).2.deliv = [] := by
+      simp only [Writer.step, stepWith]
+      split
+      · rfl
+      · rename_i e _
+        exact (receive_pend { m with flight := fun y => if y = x then (m.flight x).eraseIdx k else m.flight y } e.1 x e.2.1 e.2.2).2.2
     rw [hd]; rfl
   | closeR x =>
     have hd : (Writer.step m (.closeR x)).2.deliv = [] := by simp only [Writer.step, stepWith]; repeat (first | rfl | split)
@@ -706,7 +747,7 @@ theorem wstep_closed_no_deliv (m : W) (st : Writer.Step) (r : RId) (h : m.closed
       split
       · rfl
       · rename_i g rest _
-        exact (receive_pend { m with drops := fun y => if y = x then rest else m.drops y } Ans.dropped x g).2.2
+        exact (receive_pend { m with drops := fun y => if y = x then rest else m.drops y } Ans.dropped x g.1 g.2).2.2
     rw [hd]; rfl
   | closeW =>
     have hd : (Writer.step m .closeW).2.deliv = [] := by simp only [Writer.step, stepWith]; repeat (first | rfl | split)
